@@ -151,27 +151,128 @@ class Shadow:
         return bad
 
 
+class MirrorPinsHook:
+    """C02 clauses that need memory across a call: (a) outer pins that disappear are first taken
+    off their wire (the dropped pin object reports no wire and no wire lists it); (b) re-pointing an
+    instance to a shape-compatible definition keeps every connection on the corresponding pin."""
+    name = 'MirrorPins'
+
+    def pre(self, w, op):
+        stored = []
+        for o in w.objs:
+            if w.kind(o) == 'instance':
+                stored += list(o._pins.values())
+        rep = None
+        if op[0] == 'setref' and op[2] != '~':
+            inst = w.objs[int(op[1])]
+            if inst.reference is not None:
+                rep = [[(op_.wire if (op_ := inst._pins.get(pin)) is not None else None) for pin in port.pins] for port in inst.reference.ports]
+        return (stored, rep)
+
+    def post(self, w, op, out, pre):
+        stored, rep = pre
+        bad = []
+        now = set()
+        for o in w.objs:
+            if w.kind(o) == 'instance':
+                now |= set(id(p) for p in o._pins.values())
+        wires = [o for o in w.objs if w.kind(o) == 'wire']
+        for p in stored:
+            if id(p) not in now:
+                if p.wire is not None:
+                    bad.append('an outer pin that disappeared still reports wire #%s' % w.tok_id(p.wire))
+                for wr in wires:
+                    if any(q is p for q in wr.pins):
+                        bad.append('an outer pin that disappeared is still listed by wire #%s' % w.tok_id(wr))
+        if rep is not None and out == 'ok':
+            inst = w.objs[int(op[1])]
+            new = inst.reference
+            for pi, port in enumerate(new.ports):
+                for bi, pin in enumerate(port.pins):
+                    if pi < len(rep) and bi < len(rep[pi]):
+                        got = inst._pins[pin].wire if pin in inst._pins else None
+                        if got is not rep[pi][bi]:
+                            bad.append('re-pointing #%s moved the connection of port %d bit %d from wire #%s to #%s' % (
+                                op[1], pi, bi, w.tok_id(rep[pi][bi]), w.tok_id(got)))
+        return bad
+
+
 class OrderedLog:
     """event capture in dispatch order (World.events is reset per call and sorted only when dumped)"""
 
 
+HOOKS = ['create_netlist', 'create_library', 'create_definition', 'create_port', 'create_cable', 'create_instance',
+         'cable_add_wire', 'cable_remove_wire', 'definition_add_port', 'definition_remove_port', 'definition_add_child',
+         'definition_remove_child', 'definition_add_cable', 'definition_remove_cable', 'instance_reference',
+         'library_add_definition', 'library_remove_definition', 'netlist_top_instance', 'netlist_add_library',
+         'netlist_remove_library', 'port_add_pin', 'port_remove_pin', 'wire_connect_pin', 'wire_disconnect_pin',
+         'dictionary_set', 'dictionary_delete', 'dictionary_pop']
+
+
+def make_partial_listener(rng):
+    """a listener that overrides a random subset of the hooks with no-ops"""
+    from spydrnet.callback.callback_listener import CallbackListener
+    chosen = [h for h in HOOKS if rng.random() < 0.5]
+    body = dict((h, (lambda self, *a, **k: None)) for h in chosen)
+    cls = type('PartialListener', (CallbackListener,), body)
+    return cls(), chosen
+
+
 class MirrorHook:
+    """C19: shadow mirror + 'registering or removing listeners never changes what the API does':
+    extra listeners overriding random subsets of the hooks are registered and removed along the
+    history; the model (which knows nothing about them) must still agree and no call may raise an
+    exception class that the API does not raise on its own."""
     name = 'Mirror'
 
     def __init__(self):
         self.shadow = None
         self.world = None
+        self.extra = []
+        self.count = 0
 
     def pre(self, w, op):
+        import random
         if self.world is not w:
+            self._drop_all()
             self.world = w
             self.shadow = Shadow()
+            self.count += 1
+            self.rng = random.Random('partial/%d' % self.count)
+        r = self.rng.random()
+        if r < 0.08 and len(self.extra) < 3:
+            self.extra.append(make_partial_listener(self.rng))
+        elif r < 0.14 and self.extra:
+            l, chosen = self.extra.pop(self.rng.randrange(len(self.extra)))
+            try:
+                l.deregister_all_listeners()
+            except Exception as e:  # noqa
+                return 'deregistering a listener (hooks %s) raised %s: %s' % (chosen, type(e).__name__, e)
         return None
 
+    def _drop_all(self):
+        for l, chosen in self.extra:
+            try:
+                l.deregister_all_listeners()
+            except Exception:
+                pass
+        self.extra = []
+        # make sure nothing of ours stays registered in the process-wide containers
+        from spydrnet.global_state import global_callback as gc
+        for name in dir(gc):
+            if name.startswith('_container_'):
+                cont = getattr(gc, name)
+                cont[:] = [f for f in cont if type(getattr(f, '__self__', None)).__name__ != 'PartialListener']
+
     def post(self, w, op, out, pre):
+        bad = []
+        if isinstance(pre, str):
+            bad.append(pre)
+        if out.startswith('other:'):
+            bad.append('call %s raised %s while extra listeners were registered' % (' '.join(op[:2]), out))
         for ev in w.events:
             self.shadow.feed(ev, w)
-        return self.shadow.compare(w)
+        return bad + self.shadow.compare(w)
 
 
 def run(prop, tier, seed, replay):
@@ -180,6 +281,8 @@ def run(prop, tier, seed, replay):
         factory = FrameHook
     if prop == 'C19':
         factory = MirrorHook
+    if prop == 'C02':
+        factory = MirrorPinsHook
     if replay:
         return ir_check.replay_file(prop, replay, factory)
     return ir_check.run_check(prop, tier, seed, factory)
